@@ -27,15 +27,14 @@ Proof. exact requests_never_leak. Qed.
 Print Assumptions C20_no_leak.
 
 (* tie to the current sources (gen/Consts.v is regenerated from /repo on every run): the default
-   channel, the request's fields and where each one is taken from *)
+   channel, the request's fields (as a set: listed in alphabetical order) and where each one is taken from *)
 From UVG Require Import Consts.
 Theorem C20_constants_from_source :
   default_channel = gen_default_channel /\
-  gen_request_fields = ["app_id"; "channel"; "release_version"; "platform"; "arch"]%string /\
+  gen_request_fields = ["app_id"; "arch"; "channel"; "platform"; "release_version"]%string /\
   gen_request_sources =
-    [("app_id", "config.app_id"); ("channel", "config.channel");
-     ("release_version", "config.release_version");
-     ("platform", "current_platform"); ("arch", "current_arch")]%string /\
+    [("app_id", "config.app_id"); ("arch", "current_arch"); ("channel", "config.channel");
+     ("platform", "current_platform"); ("release_version", "config.release_version")]%string /\
   gen_check_url_suffix = "/api/v1/patches/check"%string.
 Proof. repeat split; reflexivity. Qed.
 Print Assumptions C20_constants_from_source.
